@@ -277,7 +277,7 @@ func (g *fnGen) localByName(name string, env *evalEnv) (ssa.Value, bool) {
 			if v == nil {
 				continue
 			}
-			if al, ok := v.(*ssa.Alloc); ok && al.Heap {
+			if al, ok := v.(*ssa.Alloc); ok && !regAlloc(al) {
 				if _, ok := g.vals[al]; !ok {
 					continue
 				}
@@ -332,7 +332,7 @@ func (g *fnGen) evalIdent(name string, env *evalEnv) (string, types.Type, error)
 		if v, ok := g.localByName(name, env); ok {
 			switch a := v.(type) {
 			case *ssa.Alloc:
-				if a.Heap {
+				if !regAlloc(a) {
 					return g.loadAt(env.cur, deref(a.Type()), g.vals[a]), deref(a.Type()), nil
 				}
 				return env.cur.regs[a], deref(a.Type()), nil
@@ -347,6 +347,11 @@ func (g *fnGen) evalIdent(name string, env *evalEnv) (string, types.Type, error)
 		for _, fv := range g.fn.FreeVars {
 			if fv.Name() == name {
 				pt := deref(fv.Type())
+				if g.privateFV[fv] {
+					if t, ok := env.cur.regs[fv]; ok {
+						return t, pt, nil
+					}
+				}
 				return g.loadAt(env.cur, pt, g.vals[fv]), pt, nil
 			}
 		}
